@@ -77,6 +77,9 @@ static uint32_t f_class, f_kind; static int64_t f_nth = -1, f_seen; static int f
 struct drule { uint32_t cls, kind, when, prob_ppm, min_us, max_us; };
 static struct drule drules[16]; static int ndrules; static uint64_t dseed = 88172645463325252ULL;
 static uint64_t delays_done;
+/* short writes: a write of >= 2 bytes to a watched file completes partially with this probability */
+static uint32_t s_ppm; static uint64_t s_seed = 0x9E3779B97F4A7C15ULL; static uint64_t shorts_done;
+static uint64_t srnd(void) { s_seed ^= s_seed << 13; s_seed ^= s_seed >> 7; s_seed ^= s_seed << 17; return s_seed; }
 
 static uint64_t now_ns(void) { struct timespec ts; clock_gettime(CLOCK_MONOTONIC, &ts); return (uint64_t)ts.tv_sec * 1000000000ULL + ts.tv_nsec; }
 
@@ -194,7 +197,12 @@ static ssize_t do_write(int fd, const void *buf, size_t n, int positional, off_t
     p = fdpath(fd);
     ssize_t r; int err = 0, fl = RF_MUTATING;
     if (want_fault(C_WRITE, kind)) { r = -1; err = f_errno; fl |= RF_INJECTED; }
-    else { r = positional ? real_pwrite64(fd, buf, n, off) : real_write(fd, buf, n); err = r < 0 ? errno : 0; }
+    else {
+        size_t m = n;
+        /* a short count is a legal outcome of write(2); the caller has to come back with the rest */
+        if (s_ppm && n >= 2 && srnd() % 1000000 < s_ppm) { m = 1 + (size_t)(srnd() % (n - 1)); shorts_done++; }
+        r = positional ? real_pwrite64(fd, buf, m, off) : real_write(fd, buf, m); err = r < 0 ? errno : 0;
+    }
     put_rec(positional ? K_PWRITE : K_WRITE, fl, fd, p, r, err, (uint64_t)off, (uint64_t)n, buf, r > 0 ? (size_t)r : 0);
     pthread_mutex_unlock(&mu);
     maybe_delay(C_WRITE, kind, 2);
@@ -467,4 +475,6 @@ void iorec_delay_add(uint32_t cls, uint32_t kind, uint32_t when, uint32_t prob_p
 }
 void iorec_seed(uint64_t s) { pthread_mutex_lock(&mu); dseed = s ? s : 88172645463325252ULL; pthread_mutex_unlock(&mu); }
 uint64_t iorec_delays_done(void) { return delays_done; }
+void iorec_short(uint32_t ppm, uint64_t seed) { pthread_mutex_lock(&mu); s_ppm = ppm; if (seed) s_seed = seed; pthread_mutex_unlock(&mu); }
+uint64_t iorec_shorts_done(void) { return shorts_done; }
 int iorec_present(void) { return 1; }
